@@ -33,6 +33,13 @@ def queries():
                 if m is not None:
                     q += f" offset {m}"
                 qs.append(("q", okey, n, m, q))
+    # an ordered derived table re-sorted by a key that is not a prefix of its own order (the inner order must not be taken
+    # for the outer one); judged like the plain query with the outer ORDER BY / LIMIT / OFFSET
+    for inner in ("v, k", "v desc, k desc"):
+        qs.append(("q", "k", None, None, f"select * from (select k, v from t order by {inner}) s order by k"))
+        qs.append(("q", "k desc", None, None, f"select * from (select k, v from t order by {inner}) s order by k desc"))
+        qs.append(("q", "k", 2, 1, f"select * from (select k, v from t order by {inner}) s order by k limit 2 offset 1"))
+        qs.append(("q", "k", None, 2, f"select * from (select k, v from t order by {inner}) s order by k offset 2"))
     # ORDER BY a key that is not selected (the optimizer drops the sort of a key-ordered scan, and the scan is then asked
     # for `v` only): the output sequence is determined when the keys are unique
     for okey in ("k", "k desc"):
@@ -138,7 +145,7 @@ def judge(chk, case, qs, results):
 def run(tier, seed):
     chk = core.Check("C12", tier, "model_checking",
                      "every population history (ops: 3 overlapping insert batches, 2 predicate deletes, forced compaction; "
-                     "depth<=%d) x {pk, no pk, pk as second column (disk)} x {memory, disk layouts} x {5 ORDER BY key lists, none} x LIMIT,OFFSET in {absent,0,1,2,5}^2, plus ORDER BY k / k desc with only v selected x 5 LIMIT/OFFSET pairs; "
+                     "depth<=%d) x {pk, no pk, pk as second column (disk)} x {memory, disk layouts} x {5 ORDER BY key lists, none} x LIMIT,OFFSET in {absent,0,1,2,5}^2, plus ORDER BY k / k desc with only v selected x 5 LIMIT/OFFSET pairs, plus an ordered derived table re-sorted by another key (8 forms); "
                      "a case = (table kind, engine/layout, history, query); non-trivial = table has >1 row" % (3 if tier == 'quick' else 4), seed)
     qs = queries()
     items = list(scripts(tier))
